@@ -192,6 +192,21 @@ def check_b64(crate, rep, tag=""):
                 ok, why = False, "the answer is not Engine::encode's result"
     rep.add("C20.B64", "C20.B64:encode:one-message%s" % tag, ok, enc.where(encs[0][0]) if encs else enc.where(0), "b64_encode returns Engine::encode(<the whole input>) — one base64 "
             "message, no piecewise encoding" + ("" if ok else " — VIOLATED: " + why))
+    # "invalid input to a decoder is an error": the decoded bytes become a String through String::from_utf8 whose Err is mapped and
+    # returned — no lossy conversion, no default
+    dcalls = {callee_def(t).rsplit("::", 1)[-1] for bd in crate.with_closures(dec) for bb, t in bd.calls()}
+    lossy = sorted(dcalls & {"from_utf8_lossy", "from_utf8_unchecked"})
+    fu = [(bb, t) for bb, t in dec.calls() if callee_def(t).endswith("String::from_utf8")]
+    strict = len(fu) == 1
+    if strict:
+        # what consumes the Result of from_utf8: map_err (then returned / `?`), or nothing but the return
+        d = fu[0][1]["dest"]["l"]
+        users = [callee_def(t).rsplit("::", 1)[-1] for bb, t in dec.calls() if any(a["k"] in ("copy", "move") and not a["pl"]["p"] and a["pl"]["l"] == d for a in t["args"])]
+        if any(u not in ("map_err", "branch") for u in users):
+            lossy = sorted(set(lossy) | {u for u in users if u not in ("map_err", "branch")})
+    ok = strict and not lossy
+    rep.add("C20.B64", "C20.B64:decode:invalid-utf8-is-an-error%s" % tag, ok, dec.where(0), "b64_decode turns the bytes into text with String::from_utf8 and returns its error (mapped), "
+            "nothing lossy" + ("" if ok else " — VIOLATED: %s" % (lossy or "no String::from_utf8")))
     # decode: const per url_safe, alphabets by value
     efd = EdgeFacts(dec, crate)
     dus = kwarg_locals(dec, "url_safe")
